@@ -133,6 +133,8 @@ def inventory(mir, reach):
                 if k in ("unwrap",) and t["args"] and t["args"][0].get("k") == "place":
                     prod = producer_of(fn, i, t["args"][0]["l"])
                 elif k == "index" and t["args"]:
+                    if len(t["args"]) > 1 and t["args"][1].get("ty", "").endswith("ops::RangeFull"):
+                        continue  # `v[..]`: the whole slice, total for every length
                     prod = t["args"][0].get("ty", "") + "[" + (t["args"][1].get("ty", "") if len(t["args"]) > 1 else "") + "]"
                 elif k == "exit" and t["args"]:
                     prod = "status=" + (t["args"][0].get("val") or "?")
